@@ -96,7 +96,7 @@ Proof. vm_compute. auto. Qed.
 Definition w_env : fenv :=
   Build_fenv 7 (S_ "\Seen") (S_ "01-Jan-2024 00:00:00 +0000")
     (S_ "Subject: x" ++ crlf ++ S_ "To: a@b" ++ crlf ++ crlf ++ S_ "hello world" ++ crlf)
-    (S_ "(""TEXT"" ""PLAIN"" NIL NIL NIL ""7BIT"" 13 1 NIL NIL NIL)") [(S_ "1", S_ "hello world")].
+    (S_ "(""TEXT"" ""PLAIN"" NIL NIL NIL ""7BIT"" 13 1 NIL NIL NIL)") [(S_ "1", S_ "hello world")] [].
 
 Definition unanswered (req : list fitem) (cls : finding) : Prop :=
   classify_req req = Some cls
